@@ -220,6 +220,19 @@ class Inventory:
                 self.stats["sem"] = self.stats.get("sem", 0) + 1
                 return
             # not clean: fall through to the generic inventory so that the individual sites are reported as well
+        if f.path in ("msg::mask_to_id_vec_u64", "msg::mask_to_id_vec_u32", "msg::cell_mask_id_vec"):
+            # decided by abstract interpretation with if-conversion (guardsem): all pushes, indices and arithmetic evaluated per partition
+            import guardsem, msm
+            if f.path == "msg::cell_mask_id_vec":
+                if id(prog) not in msm._CELLSEM:
+                    msm._CELLSEM[id(prog)] = guardsem.check_cellvec(prog)
+                okk = msm._CELLSEM[id(prog)][0]
+            else:
+                okk = guardsem.check_idvec(prog, f.path, 64 if f.path.endswith("64") else 32)[0]
+            if okk is True:
+                self.res.ob("P-sem", "%s | every push, index and arithmetic operation is decided on every abstract path" % f.path, True, "guardsem", f.loc)
+                self.stats["sem"] = self.stats.get("sem", 0) + 1
+                return
         if f.path == "msg::message::MessageBuilder::build_message":
             import builder
             sem = builder.build_semantics(prog)
